@@ -1,5 +1,12 @@
 """C11 — KDMixWrapper: case generator, real-code runner (recorded per-call RNG tapes), independent property
-oracle, correspondence with the Lean model (Model/MixWrapper.lean)."""
+oracle, correspondence with the Lean model (Model/MixWrapper.lean).
+
+'The dataset' of the property is the dataset the mix wrapper is put on, which need not be the root dataset: a share of the cases
+stacks dataset wrappers (index subsets, filters, shuffles, repeats, content / label / order changing doubles) between the root and
+the mix wrapper. Model and oracle are given that dataset by enumerating a separately built instance of the stack (`dataset_view`),
+never by reading the stack's specification or attributes of the code under test. Further optional case parts run the judged request
+on a pickled / deep copy, after warm-up requests on the same object, next to a second differently configured mix wrapper, and on
+float64 samples; they never change what is demanded (the property statement on the returned sample and label)."""
 import json
 import random
 import time
@@ -86,14 +93,23 @@ def numel(shape):
     return n
 
 
-def sample_tensor(k, shape):
+def sample_tensor(k, shape, dtype=None):
     """id-encoding: element with flat offset o of sample k is 1 + 512*k + o (exact in float32)"""
     import torch
-    return (torch.arange(numel(shape), dtype=torch.float32) + (1 + 512 * k)).reshape(*shape)
+    dt = torch.float64 if dtype == "float64" else torch.float32
+    return (torch.arange(numel(shape), dtype=dt) + (1 + 512 * k)).reshape(*shape)
 
 
-def make_dataset(case):
+# test doubles: the root dataset and three wrappers that are NOT index subsets (content / label / order differ from the root).
+# Defined lazily (kappadata is imported on first use) but registered as module-level names so that pickle finds them.
+_CLS = {}
+
+
+def _classes():
+    if _CLS:
+        return _CLS
     from kappadata.datasets.kd_dataset import KDDataset
+    from kappadata.datasets.kd_wrapper import KDWrapper
 
     class IdDataset(KDDataset):
         def __init__(self, xs, classes, n_classes):
@@ -112,8 +128,121 @@ def make_dataset(case):
         def __len__(self):
             return len(self.classes)
 
-    xs = [sample_tensor(k, sh) for k, sh in enumerate(case["shapes"])]
-    return IdDataset(xs, list(case["classes"]), case["n_classes"]), xs
+    class XOffsetWrapper(KDWrapper):
+        """same indices, other content: every element of x is shifted by a constant (fresh tensor)"""
+
+        def __init__(self, dataset, add):
+            super().__init__(dataset=dataset)
+            self.add = add
+
+        def getitem_x(self, idx, ctx=None):
+            return self.dataset.getitem_x(idx, ctx=ctx) + self.add
+
+    class ClsShiftWrapper(KDWrapper):
+        """same indices, other labels: class c becomes (c + by) mod n"""
+
+        def __init__(self, dataset, by, n):
+            super().__init__(dataset=dataset)
+            self.by, self.n = by, n
+
+        def getitem_class(self, idx, ctx=None):
+            return (int(self.dataset.getitem_class(idx, ctx=ctx)) + self.by) % self.n
+
+    class ReverseWrapper(KDWrapper):
+        """a KDWrapper (not a KDSubset) with its own index space: position k is sample len-1-k of the wrapped dataset"""
+
+        def getitem_x(self, idx, ctx=None):
+            return self.dataset.getitem_x(len(self.dataset) - 1 - idx, ctx=ctx)
+
+        def getitem_class(self, idx, ctx=None):
+            return self.dataset.getitem_class(len(self.dataset) - 1 - idx, ctx=ctx)
+
+    for c in (IdDataset, XOffsetWrapper, ClsShiftWrapper, ReverseWrapper):
+        c.__module__ = __name__
+        c.__qualname__ = c.__name__
+        globals()[c.__name__] = c
+        _CLS[c.__name__] = c
+    return _CLS
+
+
+def apply_below(ds, sp, case):
+    """one wrapper of the stack between the root dataset and the mix wrapper (package wrappers + the test doubles above)"""
+    from kappadata.wrappers import SubsetWrapper, ClassFilterWrapper, ShuffleWrapper, RepeatWrapper
+    k = sp["w"]
+    if k == "subset":
+        kw = {a: sp[a] for a in ("indices", "start_index", "end_index", "start_percent", "end_percent") if sp.get(a) is not None}
+        return SubsetWrapper(ds, **kw)
+    if k == "classfilter":
+        kw = {a: list(sp[a]) for a in ("valid_classes", "invalid_classes") if sp.get(a) is not None}
+        return ClassFilterWrapper(ds, **kw)
+    if k == "shuffle":
+        return ShuffleWrapper(ds, seed=sp["seed"])
+    if k == "repeat":
+        return RepeatWrapper(ds, repetitions=sp["repetitions"])
+    if k == "xoffset":
+        return _classes()["XOffsetWrapper"](ds, sp["add"])
+    if k == "clsshift":
+        return _classes()["ClsShiftWrapper"](ds, sp["by"], case["n_classes"])
+    if k == "reverse":
+        return _classes()["ReverseWrapper"](ds)
+    raise ValueError(f"unknown wrapper spec {k}")
+
+
+def make_dataset(case):
+    """(the dataset that is handed to KDMixWrapper = root + the case's stack of wrappers below the mix, tensors of the root samples)"""
+    xs = [sample_tensor(k, sh, case.get("dtype")) for k, sh in enumerate(case["shapes"])]
+    ds = _classes()["IdDataset"](xs, list(case["classes"]), case["n_classes"])
+    for sp in case.get("below") or []:
+        ds = apply_below(ds, sp, case)
+    return ds, xs
+
+
+def dataset_view(case):
+    """the property's 'the dataset': samples and classes of the dataset the mix wrapper is put on, by enumerating a separately built
+    instance of it (never through the mix wrapper). None when the stack below cannot be built / enumerated."""
+    try:
+        ds, root_xs = make_dataset(case)
+        n = len(ds)
+        xs = [ds.getitem_x(k) for k in range(n)]
+        cls = [ds.getitem_class(k) for k in range(n)]
+        cls = [int(c) for c in cls]
+    except Exception:  # noqa
+        return None
+    return {"xs": xs, "classes": cls, "root_xs": root_xs, "root_classes": list(case["classes"])}
+
+
+def track_below(case):
+    """harness-side reading of the stack (used by the generator only, to choose a valid index): list of (root id, class)"""
+    import numpy as np
+    items = [(k, c) for k, c in enumerate(case["classes"])]
+    for sp in case.get("below") or []:
+        k, n = sp["w"], len(items)
+        if k == "subset":
+            if sp.get("indices") is not None:
+                items = [items[i] for i in sp["indices"]]
+            elif sp.get("start_percent") is not None or sp.get("end_percent") is not None:
+                a = int((sp.get("start_percent") or 0.) * n)
+                b = int((1. if sp.get("end_percent") is None else sp["end_percent"]) * n)
+                items = items[a:b]
+            else:
+                b = n if sp.get("end_index") is None else min(sp["end_index"], n)
+                items = items[(sp.get("start_index") or 0):b]
+        elif k == "classfilter":
+            if sp.get("valid_classes") is not None:
+                items = [it for it in items if it[1] in sp["valid_classes"]]
+            else:
+                items = [it for it in items if it[1] not in sp["invalid_classes"]]
+        elif k == "shuffle":
+            perm = np.arange(n)
+            np.random.default_rng(seed=sp["seed"]).shuffle(perm)
+            items = [items[i] for i in perm]
+        elif k == "repeat":
+            items = items * sp["repetitions"]
+        elif k == "clsshift":
+            items = [(r, (c + sp["by"]) % case["n_classes"]) for r, c in items]
+        elif k == "reverse":
+            items = items[::-1]
+    return items
 
 
 def exc_name(e):
@@ -130,26 +259,81 @@ def float_sum(ct):
     return (ct["mixup_p"] or 0.) + (ct["cutmix_p"] or 0.)
 
 
+def ctor_kwargs(ct, seed):
+    kw = {k: ct[k] for k in ("mixup_p", "cutmix_p", "mixup_alpha", "cutmix_alpha") if ct.get(k) is not None}
+    if ct.get("unify") is not None:
+        kw["mixup_unify_shapes_mode"] = ct["unify"]
+    kw["seed"] = seed
+    return kw
+
+
+def copy_of(obj, how):
+    """the object a user works with after a round trip (DataLoader workers get pickled copies); the property does not speak about
+    copying, so a failing copy is not judged: the original object is used"""
+    import copy
+    import pickle
+    try:
+        if how == "pickle":
+            return pickle.loads(pickle.dumps(obj))
+        if how == "deepcopy":
+            return copy.deepcopy(obj)
+    except Exception:  # noqa
+        return obj
+    return obj
+
+
 def run_real(case, req=None):
-    """one ModeWrapper request on a fresh wrapper; returns outcome, outputs, the per-call tapes"""
+    """one ModeWrapper request; returns outcome, outputs, the per-call tapes of the judged request, the view of the mixed dataset.
+    Optional parts of a case (absent = fresh wrapper directly on the root dataset):
+      below    stack of dataset wrappers between the root dataset and the mix wrapper
+      sibling  a second mix wrapper with another configuration on the same dataset, created after and used before the judged one
+      via      the request is made on a pickled / deep copy of the whole stack
+      warm     indices requested on the same object before the judged request
+      dtype    float64 samples"""
     import numpy as real_np
     import kappadata.wrappers.sample_wrappers.kd_mix_wrapper as mod
     from kappadata.wrappers.mode_wrapper import ModeWrapper
     req = req or case["req"]
     out = {"calls": []}
-    ds, xs = make_dataset(case)
-    out["xs"] = xs
-    ct = case["ctor"]
-    kw = {k: ct[k] for k in ("mixup_p", "cutmix_p", "mixup_alpha", "cutmix_alpha") if ct.get(k) is not None}
-    if ct.get("unify") is not None:
-        kw["mixup_unify_shapes_mode"] = ct["unify"]
+    view = dataset_view(case)
+    out["view"] = view
+    if view is None:
+        out["ctor"] = "below-failed"
+        return out
+    out["xs"] = view["xs"]
     try:
-        w = mod.KDMixWrapper(dataset=ds, seed=case["seed"], **kw)
+        ds, _ = make_dataset(case)
+    except Exception:  # noqa
+        out["view"], out["ctor"] = None, "below-failed"
+        return out
+    try:
+        w = mod.KDMixWrapper(dataset=ds, **ctor_kwargs(case["ctor"], case["seed"]))
     except Exception as e:  # noqa
         out["ctor"] = exc_name(e)
         return out
     out["ctor"] = "ok"
-    mw = ModeWrapper(dataset=w, mode=req)
+    sib = case.get("sibling")
+    keep = []
+    if sib:
+        try:
+            w2 = mod.KDMixWrapper(dataset=ds, **ctor_kwargs(sib["ctor"], sib.get("seed")))
+            keep.append(w2)
+            m2 = ModeWrapper(dataset=w2, mode=sib.get("req", "x class"))
+            keep.append(m2[sib.get("idx", 0) % max(len(view["xs"]), 1)])
+        except Exception:  # noqa
+            pass        # outcome of another input
+    try:
+        mw = ModeWrapper(dataset=w, mode=req)
+    except Exception as e:  # noqa
+        out["res"] = exc_name(e)
+        return out
+    if case.get("via"):
+        mw = copy_of(mw, case["via"])
+    for wi in case.get("warm") or []:
+        try:
+            keep.append(mw[wi % max(len(view["xs"]), 1)])
+        except Exception:  # noqa
+            pass        # outcome of another input
     # every generator created through numpy.random.default_rng during the request is recorded, wherever the call sits (the wrapper
     # module itself, a helper in kappadata.utils, ...)
     saved = real_np.random.default_rng
@@ -171,7 +355,7 @@ def run_real(case, req=None):
         real_np.random.default_rng = saved
     out["res"] = "ok"
     names = req.split(" ")
-    vals = list(res) if len(names) > 1 else [res]
+    vals = list(res) if (len(names) > 1 and isinstance(res, (tuple, list))) else [res]
     out["x"], out["cls"], out["index"] = None, None, None
     out["n_items_ok"] = len(vals) == len(names)
     for nm, v in zip(names, vals):
@@ -187,16 +371,23 @@ def run_real(case, req=None):
 # ----------------------------------------------------------------------------------------------
 # model request / comparison
 # ----------------------------------------------------------------------------------------------
+def modelable(case, real):
+    """the model is asked when the dataset below the mix could be enumerated, its labels are naturals and the index addresses it"""
+    view = real.get("view")
+    return view is not None and all(c >= 0 for c in view["classes"]) and 0 <= case["idx"] < max(len(view["xs"]), 1)
+
+
 def model_request(case, real):
     ct = case["ctor"]
+    view = real["view"]
     return {"op": "mw.get",
             "ctor": {"mixup_p": None if ct.get("mixup_p") is None else rat(ct["mixup_p"]),
                      "cutmix_p": None if ct.get("cutmix_p") is None else rat(ct["cutmix_p"]),
                      "mixup_alpha": None if ct.get("mixup_alpha") is None else rat(ct["mixup_alpha"]),
                      "cutmix_alpha": None if ct.get("cutmix_alpha") is None else rat(ct["cutmix_alpha"]),
                      "unify": ct.get("unify"), "float_sum": rat(float_sum(ct))},
-            "ds": {"len": len(case["shapes"]), "n_classes": case["n_classes"], "cls": list(case["classes"]),
-                   "xs": [{"shape": list(sh), "data": [1 + 512 * k + o for o in range(numel(sh))]} for k, sh in enumerate(case["shapes"])]},
+            "ds": {"len": len(view["xs"]), "n_classes": case["n_classes"], "cls": list(view["classes"]),
+                   "xs": [{"shape": list(t.shape), "data": [int(v) for v in t.flatten().tolist()]} for t in view["xs"]]},
             "idx": case["idx"], "req": case["req"],
             "tapes": [[{k: v for k, v in d.items() if k != "what"} for d in c["tape"]] for c in real["calls"]]}
 
@@ -216,6 +407,9 @@ def compare(case, real, model):
         return None
     if (real["x"] is None) != (model["x"] is None) or (real["cls"] is None) != (model["cls"] is None):
         return "layout"
+    for k in ("x", "cls"):
+        if real[k] is not None and not hasattr(real[k], "shape"):
+            return f"{k}: impl returns a {type(real[k]).__name__}, not a tensor"
     if real["x"] is not None:
         if list(real["x"].shape) != model["x"]["shape"]:
             return f"x shape: impl={list(real['x'].shape)} model={model['x']['shape']}"
@@ -234,15 +428,17 @@ def compare(case, real, model):
 # ----------------------------------------------------------------------------------------------
 # independent oracle
 # ----------------------------------------------------------------------------------------------
-def in_domain(case):
-    shapes = case["shapes"]
+def in_domain(case, view):
+    if view is None:
+        return False
+    shapes = [list(t.shape) for t in view["xs"]]
     if len({len(s) for s in shapes}) != 1:
         return False
     if case["ctor"].get("unify") is None and len({tuple(s) for s in shapes}) != 1:
         return False
     if case["ctor"].get("unify") not in (None, "pad_or_cut_end"):
         return False
-    return all(0 <= c < case["n_classes"] for c in case["classes"]) and 0 <= case["idx"] < len(shapes)
+    return all(0 <= c < case["n_classes"] for c in view["classes"]) and 0 <= case["idx"] < len(shapes)
 
 
 def unify_ref(xi, xj):
@@ -255,22 +451,28 @@ def unify_ref(xi, xj):
     return u
 
 
-def explain(case, xs, x, cls):
-    """list of (j, lambda) readings under which (x, cls) is the untouched sample / a convex combination; j=None = untouched"""
+def explain(case, view, x, cls, cand_xs=None, cand_classes=None):
+    """list of (j, lambda) readings under which (x, cls) is the untouched sample / a convex combination of sample idx of the mixed
+    dataset with candidate j; j=None = untouched. Candidates: the samples of the mixed dataset (default) or another list (diagnosis)."""
     import torch
     i = case["idx"]
-    n, C = len(xs), case["n_classes"]
-    xi = xs[i]
+    diag = cand_xs is not None
+    cand_xs = view["xs"] if cand_xs is None else cand_xs
+    cand_classes = view["classes"] if cand_classes is None else cand_classes
+    C = case["n_classes"]
+    xi = view["xs"][i]
     e = torch.eye(C)
     out = []
-    ci = case["classes"][i]
-    if x is None or (list(x.shape) == list(xi.shape) and torch.equal(x, xi)):
+    ci = view["classes"][i]
+    if not diag and (x is None or (list(x.shape) == list(xi.shape) and torch.equal(x, xi))):
         if cls is None or bool(torch.all(torch.abs(cls - e[ci]) <= 1e-6)):
             out.append((None, 1.0))
-    for j in range(n):
-        u = unify_ref(xi, xs[j])
+    for j in range(len(cand_xs)):
+        cj = cand_classes[j]
+        if not (0 <= cj < C) or cand_xs[j].ndim != xi.ndim:
+            continue
+        u = unify_ref(xi, cand_xs[j])
         d = xi - u
-        cj = case["classes"][j]
         lams = []
         if x is not None:
             if list(x.shape) != list(xi.shape):
@@ -301,10 +503,11 @@ JOINT = ["x class", "class x", "index x class", "class index x", "x index class"
 
 def check_joint(case, layout, o, tag):
     """the property statement on ONE joint request (image and label returned together), seeded or not:
-    untouched sample with its one-hot label, or ONE partner j and ONE weight l explaining both data and label"""
-    xs, x, cls = o["xs"], o["x"], o["cls"]
-    xi = xs[case["idx"]]
-    if not o.get("n_items_ok", True) or x is None or cls is None:
+    untouched sample with its one-hot label, or ONE partner j OF THE MIXED DATASET and ONE weight l explaining both data and label"""
+    import torch
+    view, x, cls = o["view"], o["x"], o["cls"]
+    xi = view["xs"][case["idx"]]
+    if not o.get("n_items_ok", True) or not torch.is_tensor(x) or not torch.is_tensor(cls):
         return Failure("mixwrapper:layout", f"request '{layout}' does not return one item per mode entry for {tag}", case, layout, None)
     if "index" in layout.split(" ") and o["index"] != case["idx"]:
         return Failure("mixwrapper:layout", f"request '{layout}' returns index {o['index']} for {tag}", case, case["idx"], o["index"])
@@ -314,9 +517,19 @@ def check_joint(case, layout, o, tag):
     if cls.ndim != 1 or len(cls) != case["n_classes"] or bool((cls < -1e-6).any()) or abs(float(cls.sum()) - 1) > 2e-5:
         return Failure("mixwrapper:label-simplex", f"request '{layout}': label vector is not a non-negative vector summing to one for {tag}",
                        case, 1.0, cls.tolist())
-    if not explain(case, xs, x, cls):
-        xr = explain(case, xs, x, None)
-        lr = explain(case, xs, None, cls)
+    if not explain(case, view, x, cls):
+        # diagnosis: is it a convex combination with a sample that does not belong to the dataset the wrapper was put on
+        # (a sample of the root dataset that the wrappers below filter out / move / change)?
+        foreign = explain(case, view, x, cls, view["root_xs"], view["root_classes"])
+        if foreign:
+            return Failure("mixwrapper:partner-not-in-dataset",
+                           f"request '{layout}': result is a convex combination with root sample {foreign[0][0]} (weight {foreign[0][1]:.4f}), which is "
+                           f"not a sample of the dataset the wrapper was put on, for {tag}", case,
+                           "partner j is a sample of the wrapped dataset (its samples, as root-id-encoded first elements: "
+                           f"{[float(t.flatten()[0]) for t in view['xs']]}, classes {view['classes']})",
+                           {"layout": layout, "root_sample_(j,l)": foreign[:4], "x_first": x.flatten().tolist()[:4], "label": cls.tolist()})
+        xr = explain(case, view, x, None)
+        lr = explain(case, view, None, cls)
         return Failure("mixwrapper:not-convex-same-weight",
                        f"request '{layout}': result is neither the untouched sample nor a convex combination with one partner and one weight "
                        f"for data and label for {tag}", case, "x' = l*x_i+(1-l)*U(x_j), label' = l*e_ci+(1-l)*e_cj (same j, l)",
@@ -331,13 +544,21 @@ def check_joint(case, layout, o, tag):
     return None
 
 
+def case_tag(case, view):
+    extra = "".join(f" {k}={case[k]}" for k in ("below", "via", "warm", "dtype") if case.get(k))
+    if case.get("sibling"):
+        extra += " sibling=yes"
+    return (f"n={len(view['xs'])} shapes={[list(t.shape) for t in view['xs']]} unify={case['ctor'].get('unify')} p=({case['ctor'].get('mixup_p')},"
+            f"{case['ctor'].get('cutmix_p')}) seed={case['seed']} idx={case['idx']}{extra}")
+
+
 def oracle(case, joint=None):
     """Failure or None; runs the real wrapper for the joint layouts (both orders, with index) and the single-item layouts"""
     import torch
-    if not in_domain(case):
+    view = dataset_view(case)
+    if not in_domain(case, view):
         return None
-    tag = (f"n={len(case['shapes'])} shapes={case['shapes']} unify={case['ctor'].get('unify')} p=({case['ctor'].get('mixup_p')},"
-           f"{case['ctor'].get('cutmix_p')}) seed={case['seed']} idx={case['idx']}")
+    tag = case_tag(case, view)
     # the two orders always, plus two of the index layouts (chosen by the case, all of them when replaying a recorded case)
     k = (case.get("gseed", 0) + case["idx"]) % 2
     layouts = JOINT if case.get("all_layouts") else JOINT[:2] + [JOINT[2 + k], JOINT[4 + k]]
@@ -347,8 +568,13 @@ def oracle(case, joint=None):
         res[lay] = o
         if o.get("ctor") != "ok":
             return None     # rejected constructor call: an outcome, not a violation
-        if o.get("res") != "ok":
+        if o.get("res") in ("assert", "notimpl"):
             continue        # deliberate rejections (assert / NotImplementedError for a cutmix draw) are outcomes
+        if o.get("res") != "ok":
+            # inside the property's domain (valid classes, one rank, equal shapes or the pad/cut mode, index of the dataset) the wrapper
+            # "returns for index i ...": an IndexError / TypeError / ... escaping from the request is not a return value
+            return Failure("mixwrapper:raises", f"request '{lay}' raises {o.get('res')} instead of returning a sample for {tag}", case,
+                           "a sample and its label", o.get("res"))
         f = check_joint(case, lay, o, tag)
         if f is not None:
             return f
@@ -359,22 +585,100 @@ def oracle(case, joint=None):
         x, cls = j["x"], j["cls"]
         for r in layouts[1:] + ["x", "class"]:
             o = res[r] if r in res else run_real(case, r)
+            if o.get("ctor") != "ok":
+                return None
             if o.get("res") != "ok":
                 return Failure("mixwrapper:seeded-requests-differ", f"request '{r}' fails ({o.get('res')}) while 'x class' succeeds for {tag}", case, "ok", o.get("res"))
-            if o["x"] is not None and not torch.equal(o["x"], x):
-                return Failure("mixwrapper:seeded-requests-differ", f"image of request '{r}' differs from the joint request for {tag}", case,
-                               x.flatten().tolist()[:8], o["x"].flatten().tolist()[:8])
-            if o["cls"] is not None and not torch.equal(o["cls"], cls):
-                return Failure("mixwrapper:seeded-requests-differ", f"label of request '{r}' differs from the joint request for {tag}", case,
-                               cls.tolist(), o["cls"].tolist())
+            for nm, got, ref in (("image", o["x"], x), ("label", o["cls"], cls)):
+                if got is None:
+                    continue
+                if not torch.is_tensor(got) or got.shape != ref.shape or not torch.equal(got, ref):
+                    return Failure("mixwrapper:seeded-requests-differ", f"{nm} of request '{r}' differs from the joint request for {tag}", case,
+                                   ref.flatten().tolist()[:8], got.flatten().tolist()[:8] if torch.is_tensor(got) else repr(got)[:80])
     return None
 
 
 # ----------------------------------------------------------------------------------------------
 # case generation
 # ----------------------------------------------------------------------------------------------
+ERR_KINDS = ["noprob", "sum_gt", "alpha_missing", "alpha_extra", "unify_without_mixup", "badunify", "shape_mismatch", "class_oob", "neg"]
+MIX_CTORS = [{"mixup_p": 1.0, "cutmix_p": None, "mixup_alpha": 0.8, "cutmix_alpha": None, "unify": None},
+             {"mixup_p": 1.0, "cutmix_p": None, "mixup_alpha": 2.0, "cutmix_alpha": None, "unify": "pad_or_cut_end"},
+             {"mixup_p": 0.5, "cutmix_p": None, "mixup_alpha": 0.3, "cutmix_alpha": None, "unify": "pad_or_cut_end"},
+             {"mixup_p": 0.25, "cutmix_p": 0.25, "mixup_alpha": 1.0, "cutmix_alpha": 1.0, "unify": None},
+             {"mixup_p": None, "cutmix_p": 1.0, "mixup_alpha": None, "cutmix_alpha": 0.5, "unify": None}]
+
+
+def gen_below_spec(rng, items, n_classes):
+    """one wrapper spec for a dataset that currently has the samples `items` (list of (root id, class))"""
+    n = len(items)
+    k = rng.choice(["subset_se", "subset_se", "subset_idx", "subset_idx", "subset_pct", "classfilter", "classfilter", "shuffle", "repeat",
+                    "xoffset", "clsshift", "reverse"])
+    if k == "subset_se":
+        a = rng.randint(0, n - 1)
+        b = rng.randint(a + 1, n + 1)       # an end beyond the dataset is clipped by the wrapper
+        form = rng.randrange(3)
+        return {"w": "subset", "start_index": a if form != 1 else None, "end_index": b if form != 0 else None}
+    if k == "subset_idx":
+        return {"w": "subset", "indices": [rng.randrange(n) for _ in range(rng.randint(1, n + 1))]}
+    if k == "subset_pct":
+        a, b = sorted([rng.choice([0., 0.25, 0.5, 0.75]), rng.choice([0.5, 0.75, 1.0])])
+        form = rng.randrange(3)
+        return {"w": "subset", "start_percent": a if form != 1 else None, "end_percent": b if form != 0 else None}
+    if k == "classfilter":
+        present = sorted({c for _, c in items})
+        sel = [c for c in range(n_classes) if rng.random() < 0.5] or [rng.choice(present)]
+        return {"w": "classfilter", rng.choice(["valid_classes", "invalid_classes"]): sel}
+    if k == "shuffle":
+        return {"w": "shuffle", "seed": rng.randint(0, 100)}
+    if k == "repeat":
+        return {"w": "repeat", "repetitions": rng.randint(2, 3)}
+    if k == "xoffset":
+        return {"w": "xoffset", "add": rng.choice([64, 128, 200, 300])}
+    if k == "clsshift":
+        return {"w": "clsshift", "by": rng.randint(1, max(1, n_classes - 1))}
+    return {"w": "reverse"}
+
+
+def decorate(case, rng, comp):
+    """the compositions / histories a case is run under (all optional; the property is judged on the dataset below the mix)"""
+    if comp:
+        below = []
+        for _ in range(rng.choice([1, 1, 1, 2, 2, 3])):
+            for _try in range(4):
+                sp = gen_below_spec(rng, track_below({**case, "below": below}), case["n_classes"])
+                if sp is None:
+                    continue
+                try:
+                    ok = 1 <= len(track_below({**case, "below": below + [sp]})) <= 16
+                except Exception:  # noqa
+                    ok = False
+                if ok:
+                    below.append(sp)
+                    break
+        if below:
+            case["below"] = below
+            case["idx"] = rng.randrange(len(track_below(case)))
+    r = rng.random()
+    if r < 0.08:
+        case["via"] = "pickle"
+    elif r < 0.14:
+        case["via"] = "deepcopy"
+    if rng.random() < 0.15:
+        case["warm"] = [rng.randrange(16) for _ in range(rng.randint(1, 3))]
+        if rng.random() < 0.5:
+            case["warm"][-1] = case["idx"]
+    if rng.random() < 0.12:
+        case["sibling"] = {"ctor": dict(rng.choice(MIX_CTORS)), "seed": rng.choice([None, case["seed"], rng.randint(0, 50)]),
+                           "idx": rng.randrange(16), "req": rng.choice(["x class", "x", "class x"])}
+    if rng.random() < 0.10:
+        case["dtype"] = "float64"
+    return case
+
+
 def gen_case(rng):
-    n = rng.randint(1, 5)
+    comp = rng.random() < 0.45
+    n = rng.randint(2, 8) if comp else rng.randint(1, 5)
     rank = rng.choice([1, 2, 2, 3, 3])
     unify = rng.choice([None, "pad_or_cut_end", "pad_or_cut_end"])
     base = [rng.randint(1, 4) for _ in range(rank)]
@@ -392,7 +696,7 @@ def gen_case(rng):
             "gseed": rng.randint(0, 10 ** 6), "idx": rng.randrange(n), "req": rng.choice(REQS + ["class x"])}
     r = rng.random()
     if r < 0.10:
-        k = rng.choice(["noprob", "sum_gt", "alpha_missing", "alpha_extra", "unify_without_mixup", "badunify", "shape_mismatch", "class_oob", "neg"])
+        k = rng.choice(ERR_KINDS)
         if k == "noprob":
             ct.update(mixup_p=None, cutmix_p=None, mixup_alpha=None, cutmix_alpha=None, unify=None)
         elif k == "sum_gt":
@@ -412,7 +716,7 @@ def gen_case(rng):
             case["classes"][rng.randrange(n)] = n_classes
         elif k == "neg":
             ct.update(mixup_p=-0.5, cutmix_p=1.0, mixup_alpha=0.8, cutmix_alpha=1.0)
-    return case
+    return decorate(case, rng, comp)
 
 
 def structured_cases():
@@ -434,6 +738,49 @@ def structured_cases():
             out.append({"shapes": [r3, q3, [2, 2, 2]], "classes": [0, 1, 2], "n_classes": 3,
                         "ctor": {"mixup_p": 1.0, "cutmix_p": None, "mixup_alpha": 1.0, "cutmix_alpha": None, "unify": "pad_or_cut_end"},
                         "seed": seed, "idx": seed % 3, "req": REQS[seed % 4]})
+    return out + structured_compositions()
+
+
+BELOW_STACKS = [
+    [{"w": "subset", "start_index": 4}],
+    [{"w": "subset", "end_index": 3}],
+    [{"w": "subset", "indices": [7, 2, 5, 5, 6]}],
+    [{"w": "subset", "start_percent": 0.5}],
+    [{"w": "classfilter", "valid_classes": [1, 3]}],
+    [{"w": "classfilter", "invalid_classes": [0]}],
+    [{"w": "shuffle", "seed": 3}],
+    [{"w": "repeat", "repetitions": 2}],
+    [{"w": "xoffset", "add": 200}],
+    [{"w": "clsshift", "by": 1}],
+    [{"w": "reverse"}],
+    [{"w": "shuffle", "seed": 1}, {"w": "subset", "end_index": 4}],
+    [{"w": "classfilter", "valid_classes": [0, 2]}, {"w": "repeat", "repetitions": 2}],
+    [{"w": "subset", "start_index": 2}, {"w": "reverse"}, {"w": "xoffset", "add": 64}],
+]
+
+
+def structured_compositions():
+    """the mix wrapper on top of every kind of wrapper stack (root of 8 samples, 4 classes), p = 1, every third index, seeded and not;
+    plus the history variants (copy, warm-up, sibling, float64) on the plain root dataset"""
+    out = []
+    seed = 100
+    for st in BELOW_STACKS:
+        base = {"shapes": [[2, 3]] * 8, "classes": [r % 4 for r in range(8)], "n_classes": 4, "below": st}
+        n = len(track_below(base))
+        for idx in range(0, n, 3):
+            seed += 1
+            out.append({**base, "ctor": {"mixup_p": 1.0, "cutmix_p": None, "mixup_alpha": 0.8, "cutmix_alpha": None, "unify": None},
+                        "seed": None if seed % 4 == 0 else seed, "gseed": seed, "idx": idx, "req": REQS[seed % 4]})
+    shapes = [[2, 3], [3, 2], [1, 4], [2, 2]]
+    for extra in ({"via": "pickle"}, {"via": "deepcopy"}, {"warm": [1]}, {"warm": [0, 2, 1]}, {"dtype": "float64"},
+                  {"sibling": {"ctor": MIX_CTORS[2], "seed": 7, "idx": 1, "req": "x class"}},
+                  {"sibling": {"ctor": MIX_CTORS[4], "seed": None, "idx": 0, "req": "x"}},
+                  {"below": [{"w": "subset", "start_index": 1}], "via": "pickle", "warm": [0]}):
+        for idx in range(3):
+            seed += 1
+            out.append({"shapes": shapes, "classes": [0, 1, 2, 1], "n_classes": 3,
+                        "ctor": {"mixup_p": 1.0, "cutmix_p": None, "mixup_alpha": 1.0, "cutmix_alpha": None, "unify": "pad_or_cut_end"},
+                        "seed": None if seed % 3 == 0 else seed, "gseed": seed, "idx": idx, "req": REQS[seed % 4], **extra})
     return out
 
 
@@ -441,12 +788,16 @@ def signature(case, real):
     i = case["idx"]
     kinds = tuple(tuple(d["k"] for d in c["tape"]) for c in real.get("calls", []))
     partner = None
-    if kinds and len(kinds[-1]) >= 2:
-        j = real["calls"][-1]["tape"][1].get("v")
-        if j is not None and j < len(case["shapes"]):
-            partner = tuple("=" if a == b else ("<" if a < b else ">") for a, b in zip(case["shapes"][i], case["shapes"][j]))
+    view = real.get("view")
+    if view is not None and kinds and len(kinds[-1]) >= 2 and 0 <= i < len(view["xs"]):
+        d = real["calls"][-1]["tape"][1]
+        j = d.get("v") if d.get("k") == "int" else None
+        if isinstance(j, int) and 0 <= j < len(view["xs"]):
+            partner = tuple("=" if a == b else ("<" if a < b else ">") for a, b in zip(view["xs"][i].shape, view["xs"][j].shape))
+    below = tuple(sp["w"] for sp in case.get("below") or [])
     return (len(case["shapes"][0]), case["ctor"].get("unify"), str(case["ctor"].get("mixup_p")), str(case["ctor"].get("cutmix_p")),
-            case["seed"] is None, case["req"], real.get("ctor"), real.get("res"), kinds, partner)
+            case["seed"] is None, case["req"], real.get("ctor"), real.get("res"), kinds, partner,
+            below, case.get("via"), bool(case.get("warm")), bool(case.get("sibling")), case.get("dtype"))
 
 
 class C11(PropertyCheck):
@@ -495,17 +846,35 @@ class C11(PropertyCheck):
         cases, ncorp, nst = self.cases()
         res.rule = (f"{ncorp} corpus + {nst} structured cases (all 2-d extent pairs in 1..3 for sample/partner with pad_or_cut_end, 3-d triples) + seeded random "
                     "datasets (1..5 samples, rank 1..3, extents 1..4, 1..5 classes, p splits incl. cutmix, unify None/pad_or_cut_end, seeds incl. None, "
-                    "4 request layouts in the correspondence, 4 joint layouts (both orders, with index) + single-item layouts in the oracle, rejected constructor calls / shape mismatch / class out of range); distinct = (rank, unify, split, seeded?, layout, "
-                    "outcome, draw kinds per call, per-dimension pad/cut/equal pattern of the drawn partner)")
+                    "4 request layouts in the correspondence, 4 joint layouts (both orders, with index) + single-item layouts in the oracle, rejected constructor calls / shape mismatch / class out of range); "
+                    "45% of the random cases and a structured block put the mix wrapper on a stack of 1..3 dataset wrappers (SubsetWrapper by start/end/indices/percent, "
+                    "ClassFilterWrapper, ShuffleWrapper, RepeatWrapper, and test doubles that change content / labels / order) -- model and oracle see the "
+                    "dataset BELOW the mix by enumerating it; shares of the cases run the request on a pickled / deep copy, after warm-up requests on the same object, "
+                    "next to a second mix wrapper with another configuration on the same dataset, on float64 samples; distinct = (rank, unify, split, seeded?, layout, "
+                    "outcome, draw kinds per call, per-dimension pad/cut/equal pattern of the drawn partner, wrapper kinds below, copy kind, warm-up?, sibling?, dtype)")
         res.exhaustive = False
         reals, reqs = [], []
         for case in cases:
             real = run_real(case)
             reals.append(real)
-            reqs.append(model_request(case, real))
-        answers = self.driver.run(reqs)
-        for case, real, model in zip(cases, reals, answers):
+            if modelable(case, real):
+                reqs.append(model_request(case, real))
+        answers = iter(self.driver.run(reqs))
+        for case, real in zip(cases, reals):
             res.cases += 1
+            for k in ("via", "dtype"):
+                if case.get(k):
+                    res.bump(f"{k}={case[k]}")
+            res.bump("below=" + "+".join(sp["w"] for sp in case.get("below") or []) if len(case.get("below") or []) < 2
+                     else f"below={len(case['below'])} wrappers")
+            if case.get("warm"):
+                res.bump("warm-up requests")
+            if case.get("sibling"):
+                res.bump("sibling wrapper")
+            if not modelable(case, real):
+                res.bump("not-modelled (dataset below the mix not enumerable / index outside)")
+                continue
+            model = next(answers)
             res.nontrivial.add(signature(case, real))
             res.bump(f"ctor={real.get('ctor')}")
             res.bump(f"res={real.get('res')}")
